@@ -171,8 +171,24 @@ func checkC19(c *core.Ctx) {
 			})
 			// ---- R3 errors are returned, not printed
 			if fd.Name.Name == "main" {
-				c.Check("R3", name+" exits 1 exactly when run() failed", p.Pos(fd.Pos()), mainExitsOnRunError(info, fd) && exitOnlyOnError(info, fd),
-					"main must call os.Exit with a non-zero status on the arm where the error of run() is not nil, and nowhere else")
+				if sfn := exitStatusFunc(info, fd); sfn != nil {
+					// os.Exit(run(...)): run computes the status itself
+					sd := p.Decl(sfn)
+					if sd == nil || sd.Body == nil {
+						c.Undecide("%s: os.Exit is handed the result of %s, whose body is not available", name, sfn.Name())
+					} else {
+						okS, why := statusOnErrorArms(info, sd)
+						if why == "computed" {
+							c.Undecide("%s: %s returns a status that is not a constant: which arms exit non-zero is not read off", name, sfn.Name())
+						} else {
+							c.Check("R3", name+" exits 1 exactly when run() failed", p.Pos(sd.Pos()), okS,
+								sfn.Name()+", whose result main hands to os.Exit, "+why)
+						}
+					}
+				} else {
+					c.Check("R3", name+" exits 1 exactly when run() failed", p.Pos(fd.Pos()), mainExitsOnRunError(info, fd) && exitOnlyOnError(info, fd),
+						"main must call os.Exit with a non-zero status on the arm where the error of run() is not nil, and nowhere else")
+				}
 			}
 			if funcReturnsError(u.owner, fd) {
 				errorArmsReturn(c, p, info, fd, name)
@@ -681,6 +697,87 @@ func mainExitsOnRunError(info *types.Info, fd *ast.FuncDecl) bool {
 		}
 	}
 	return ok
+}
+
+// exitStatusFunc: main is `os.Exit(f(...))` with f a function of the same
+// package that returns an int.
+func exitStatusFunc(info *types.Info, fd *ast.FuncDecl) *types.Func {
+	var out *types.Func
+	ast.Inspect(fd.Body, func(n ast.Node) bool {
+		call, ok := n.(*ast.CallExpr)
+		if !ok || wire.Canon(call.Fun) != "os.Exit" || len(call.Args) != 1 {
+			return true
+		}
+		inner, ok := ast.Unparen(call.Args[0]).(*ast.CallExpr)
+		if !ok {
+			return true
+		}
+		if cal := load.Callee(info, inner); cal != nil {
+			if sig, ok := cal.Type().(*types.Signature); ok && sig.Results().Len() == 1 {
+				if b, ok := sig.Results().At(0).Type().Underlying().(*types.Basic); ok && b.Info()&types.IsInteger != 0 {
+					out = cal
+				}
+			}
+		}
+		return true
+	})
+	return out
+}
+
+// statusOnErrorArms: in a function that returns the exit status, no arm that
+// tests an error for != nil returns 0 (a failure reported as success), and at
+// least one returns a non-zero status.
+func statusOnErrorArms(info *types.Info, fd *ast.FuncDecl) (bool, string) {
+	ok, why := true, ""
+	nonZeroOnError := 0
+	var walk func(n ast.Node, inErrArm bool)
+	walk = func(n ast.Node, inErrArm bool) {
+		ast.Inspect(n, func(m ast.Node) bool {
+			switch x := m.(type) {
+			case *ast.FuncLit:
+				return false
+			case *ast.IfStmt:
+				if _, is := errNilTest(info, x.Cond); is {
+					if x.Init != nil {
+						walk(x.Init, inErrArm)
+					}
+					walk(x.Body, true)
+					if x.Else != nil {
+						walk(x.Else, inErrArm)
+					}
+					return false
+				}
+			case *ast.ReturnStmt:
+				if len(x.Results) != 1 {
+					return true
+				}
+				tv := info.Types[x.Results[0]]
+				if tv.Value == nil {
+					if why == "" {
+						why = "computed"
+					}
+					return true
+				}
+				zero := tv.Value.String() == "0"
+				if inErrArm && zero {
+					ok = false
+					why = "returns 0 on an arm where an error was detected: the failure is reported as success"
+				}
+				if inErrArm && !zero {
+					nonZeroOnError++
+				}
+			}
+			return true
+		})
+	}
+	walk(fd.Body, false)
+	if why == "computed" {
+		return false, why
+	}
+	if ok && nonZeroOnError == 0 {
+		return false, "returns a non-zero status on no arm that detected an error"
+	}
+	return ok, why
 }
 
 // exitOnlyOnError: os.Exit with a non-zero constant appears only inside an
